@@ -19,6 +19,12 @@ Top-level statements, from the property text:
   H5  InverseOperator(A).config is the configuration current at creation; InverseOperator.mv passes exactly that
       configuration's solver / throw / options to lineax and its callback to jax.debug.callback, whatever is
       current when mv runs, and never reads the context variable.
+  H6  capture survives jit caching: under the ASSUMED JAX/equinox contract "compiled traces are cached under a key in
+      which static fields are compared with ==/hash" (theories/context.py), a lazy inverse keeps its own
+      configuration only if configurations differing in any setting never compare equal: ConfigState's equality
+      (and hash) is the structural one over ALL declared settings — executed: two ConfigState objects built by the
+      real dataclass __init__ that differ in exactly one setting are != ; decided on the class table: eq kept,
+      frozen, no field with compare=False / hash=False, no hand-written __eq__ / __ne__ / __hash__.
   F   frames (decided on the source text): the only module-level state of furax._base.config is `_config_var`,
       a contextvars.ContextVar; its only writers are Config.__enter__ (set) and Config.__exit__ (reset); nothing
       else in the tree touches it; ConfigState is a frozen dataclass.
@@ -344,6 +350,7 @@ def build(ck):
     ck.explore(f'{CFG}.Config.__enter__', with_nested, T, label='nested-depth-2')
 
     build_inverse(ck, T)
+    build_equality(ck, T)
     build_frames(ck, T)
 
 
@@ -450,6 +457,81 @@ def build_inverse(ck, T):
         S.oblige('post', made.normal and made.value.fields.get('config') is effective(var, before),
                  tag='outside-any-block-or-inside-one: config-field-is-the-active-configuration')
     ck.explore(f'{CORE}.InverseOperator.__init__', creation_frame, T, label='frame')
+
+
+# ====================================================================== H6  equality of configurations (jit cache key)
+def build_equality(ck, T):
+    P = ck.P
+    FN = field_names(P)
+    ck.assume_note('C19: jax.jit / equinox.filter_jit cache traces under a key in which static fields (InverseOperator.config) '
+                   'are compared with == / hash; operators whose static fields compare equal share one trace')
+
+    def differ_in_one(S):
+        S.oracle = {'name': 'jit_capture'}
+        ci = P.cls(f'{CFG}.ConfigState')
+        kw = {n: sym_value(P, n, 'a') for n in FN}
+        a = S.call(ClassRef(ci), [], kw)
+        k = S.choose(len(FN))
+        S.inputs['differs_in'] = FN[k]
+        kw2 = dict(kw)
+        kw2[FN[k]] = sym_value(P, FN[k], 'b')
+        b = S.call(ClassRef(ci), [], kw2)
+        S.oblige('exc', a.normal and b.normal, tag='constructed-by-the-dataclass-init')
+        if not (a.normal and b.normal):
+            return
+        S.assume(z3.Not(kw[FN[k]] == kw2[FN[k]]))
+        eq = S.I.truth_term(S.I.compare('Eq', a.value, b.value))
+        ne = S.I.truth_term(S.I.compare('NotEq', a.value, b.value))
+        S.oblige('post', eq is False if isinstance(eq, bool) else z3.Not(eq),
+                 tag=f'configurations-differing-only-in-{FN[k]}-do-not-compare-equal (a jit cache keyed on the static config never merges them)')
+        S.oblige('post', ne is True if isinstance(ne, bool) else ne,
+                 tag=f'configurations-differing-only-in-{FN[k]}-are-!=')
+        # through the real Config path: blocks that differ only in this setting give different captured configurations
+        var = the_var(S)
+        if var is not None:
+            Config = ClassRef(P.cls(f'{CFG}.Config'))
+            c1 = S.call(Config, [], {FN[k]: kw[FN[k]]})
+            c2 = S.call(Config, [], {FN[k]: kw2[FN[k]]})
+            if c1.normal and c2.normal:
+                e2 = S.I.truth_term(S.I.compare('Eq', c1.value.fields.get('_instance'), c2.value.fields.get('_instance')))
+                S.oblige('post', e2 is False if isinstance(e2, bool) else z3.Not(e2),
+                         tag=f'Config({FN[k]}=v) and Config({FN[k]}=w) store-configurations-that-do-not-compare-equal')
+    ck.explore(f'{CFG}.ConfigState', differ_in_one, T, label='equality-differs-in-one-setting')
+
+    def same_settings(S):
+        S.oracle = {'name': 'jit_capture'}
+        ci = P.cls(f'{CFG}.ConfigState')
+        kw = {n: sym_value(P, n, 'a') for n in FN}
+        a, b = S.call(ClassRef(ci), [], kw), S.call(ClassRef(ci), [], dict(kw))
+        ok = a.normal and b.normal
+        S.oblige('exc', ok, tag='constructed-by-the-dataclass-init')
+        if ok:
+            eq = S.I.truth_term(S.I.compare('Eq', a.value, b.value))
+            S.oblige('post', eq, tag='structural: configurations-with-the-same-settings-compare-equal')
+    ck.explore(f'{CFG}.ConfigState', same_settings, T, label='equality-same-settings')
+
+    def declarations(S):
+        S.oracle = {'name': 'jit_capture'}
+        ci = P.cls(f'{CFG}.ConfigState')
+        opts = CX.dataclass_options(ci)
+        S.oblige('frame', opts is not None, tag='ConfigState-is-a-dataclass')
+        opts = opts or {}
+        S.oblige('frame', opts.get('eq', True) is True, tag='dataclass-keeps-the-generated-__eq__ (no eq=False)')
+        S.oblige('frame', opts.get('frozen', False) is True and opts.get('unsafe_hash', False) is False,
+                 tag='frozen-so-that-the-generated-__hash__-follows-the-compared-fields')
+        for f in ci.all_fields():
+            S.oblige('frame', f.options.get('compare', True) is True,
+                     tag=f'setting-{f.name}-takes-part-in-== (no compare=False)', oracle={'name': 'jit_capture', 'field': f.name})
+            S.oblige('frame', f.options.get('hash', None) in (None, True),
+                     tag=f'setting-{f.name}-takes-part-in-hash (no hash=False)', oracle={'name': 'jit_capture', 'field': f.name})
+        hand = [f'{c.name}.{n}' for c in ci.mro for n in ('__eq__', '__ne__', '__hash__')
+                if n in c.methods or n in c.attrs or n in c.patched]
+        S.oblige('frame', not hand, tag='no-hand-written-__eq__/__ne__/__hash__-on-ConfigState', note=str(hand))
+        inv = P.cls(f'{CORE}.InverseOperator')
+        fld = [f for f in inv.all_fields() if f.name == 'config']
+        S.oblige('frame', len(fld) == 1 and fld[0].static and fld[0].options.get('compare', True) is True,
+                 tag='InverseOperator.config-is-a-static-field (part of the jit cache key)')
+    ck.explore(f'{CFG}.ConfigState', declarations, T, label='equality-declarations')
 
 
 # ====================================================================== F  frames on the source text
